@@ -1,7 +1,7 @@
 #!/bin/sh
 # usage: tools/run_all.sh [quick|thorough]  — runs every registered check on /repo's current tree
 # (evidence/<id>.json is rewritten by each); prints one summary line per property.
-cd /verif
+cd "$(dirname "$0")/.."
 tier="${1:-quick}"
 rc_all=0
 for i in 01 02 03 04 05 06 07 08 09 10 11 12 13 14 15 16 17 18 19 20; do
